@@ -163,9 +163,17 @@ CHECKS["C18"] = dict(
     design="DESIGN.md §4 C18 and §10",
 )
 
+CHECKS["C19"] = dict(
+    rules="R19.1-R19.2",
+    what="definition-kind coverage: every statement kind for which stubgen's DefinitionFinder records a top-level name has an emitting visit method in ASTStubGenerator; the string-producing visitors (AliasPrinter, AnnotationPrinter) return a value on every path of every visit method",
+    quant="generated modules x definition kinds x modes",
+    technique="sibling cross-check of the two visitors' method sets with reachability of the emission call inside the generator class; CFG must-pass (every path returns a value) over the printers' methods",
+    note="Syntactic validity of the emitted text, its self-consistency under type checking, agreement with the runtime module (stubtest) and preservation of the spelled annotations are properties of the output per input module and are not decided. The claim is two necessary conditions of 'every public definition appears' and 'the stub is valid text'.",
+    design="DESIGN.md §10.6",
+)
+
 NOT_APPLICABLE = {
     "C01": "soundness of inference relates run-time values to inferred types for every program and execution; no clause of it is visible in the shape of the code (visitor exhaustiveness is already enforced by abstract methods; a must-call-check_subtype rule would be wrong on correct code)",
-    "C19": "validity and faithfulness of emitted stub text are properties of the output per input module; the only shape-visible convention (typing names via add_name/require_name) has a single instance",
 }
 
 PENDING = {}
